@@ -148,11 +148,18 @@ def fixed_specs(rng):
     cyc = {'top': [geo, {'kind': 'nodes', 'items': [
         node('a', [inn('#b')]), node('b', [inn('#a')]), node('c', [inn('#c')]), node('d', [g('#geo0'), inn('#e')]),
         node('e', [g('#geo0')])]}]}
+    # two <library_nodes> elements: the second has forward references among its own nodes and instantiates nodes of the first
+    two = {'top': [geo,
+                   {'kind': 'nodes', 'items': [node('x', [g('#geo0')], 'y'), node('y', [inn('#x')], 'x')]},
+                   {'kind': 'nodes', 'items': [node('a', [inn('#b'), inn('#x')], 'd'), node('b', [inn('#c')], 'a'),
+                                               node('c', [inn('#y'), g('#geo0')], 'b'), node('d', [inn('#a')], 'c')]},
+                   {'kind': 'scenes', 'items': [{'id': 'vs0', 'nodes': [node('r0', [inn('#x'), inn('#y'), inn('#d')]),
+                                                                         node('r1', [inn('#a'), inn('#c')])]}]}]}
     sc4 = {'top': [geo, {'kind': 'nodes', 'items': [node('ln0', [g('#geo0')])]},
                    {'kind': 'scenes', 'items': [{'id': 'vs0', 'nodes': [
                        node('p', [inn('#q')], 'q'), node('q', [inn('#r'), inn('#ln0')], 'r'), node('r', [inn('#s')], 's'),
                        node('s', [g('#geo0')], 'p')]}]}]}
-    return {'lib6': lib6, 'lib5a': lib5a, 'lib5b': lib5b, 'chain': chain, 'fan': fan, 'cyc': cyc, 'sc4': sc4}
+    return {'lib6': lib6, 'lib5a': lib5a, 'lib5b': lib5b, 'chain': chain, 'fan': fan, 'cyc': cyc, 'sc4': sc4, 'two': two}
 
 
 def expected_counts(spec, uids):
@@ -203,6 +210,12 @@ def build_cases(ctx):
     for perm in itertools.permutations(range(4)):
         cases.append(make_case(R.with_scene_node_order(fx['sc4'], perm), [None], True, family='scenenodeperm:sc4'))
     stats['scenenodeperm:sc4'] = 24
+    # two <library_nodes> elements: all 24 orders of the second element's nodes x both orders of the first
+    for p1 in itertools.permutations(range(2)):
+        for p2 in itertools.permutations(range(4)):
+            cases.append(make_case(R.with_node_order(R.with_node_order(fx['two'], p1, 0), p2, 1), [None], True,
+                                   family='nodeperm:two-library_nodes'))
+    stats['nodeperm:two-library_nodes'] = 48
     # scoped references re-pointed at a name defined only in ANOTHER scope (effect sids, geometry and
     # controller sources, top-level nodes of another scene): dangling, never bound across scopes
     from harness.gen import c08docs, faults as F
